@@ -1,1 +1,37 @@
-fn main(){}
+//! wwv — conformance harness: drives the real white-whale-core contracts (cw-multi-test)
+//! and records ndjson traces that TLC validates against the TLA+ specifications in ../spec.
+mod gen;
+mod rec;
+mod suites;
+mod world;
+
+use std::collections::HashMap;
+
+fn main() {
+    let args: Vec<String> = std::env::args().collect();
+    if args.len() < 2 {
+        eprintln!("usage: wwv <suite> [--seed N] [--runs N] [--ops N] [--out FILE] [--sched FILE]");
+        std::process::exit(2);
+    }
+    let suite = args[1].clone();
+    let mut kv: HashMap<String, String> = HashMap::new();
+    let mut i = 2;
+    while i + 1 < args.len() {
+        kv.insert(args[i].trim_start_matches("--").to_string(), args[i + 1].clone());
+        i += 2;
+    }
+    let get = |k: &str, d: u64| kv.get(k).and_then(|v| v.parse::<u64>().ok()).unwrap_or(d);
+    let seed = get("seed", 1);
+    let runs = get("runs", 10);
+    let ops = get("ops", 25) as usize;
+    let first = get("first", 0);
+    let out = kv.get("out").cloned().unwrap_or_else(|| "trace.ndjson".to_string());
+    world::silence_panics();
+    match suite.as_str() {
+        "pool" => suites::pool::main(seed, first, runs, ops, &out),
+        _ => {
+            eprintln!("unknown suite {suite}");
+            std::process::exit(2);
+        }
+    }
+}
